@@ -64,6 +64,13 @@ def r10_1(repo: Repo, rule: str = "R10.1", files: Optional[Set[str]] = None, flo
 
 
 # --------------------------------------------------------------------------- R10.2
+# parallel-array parameters (same length by the call convention; the caller passes
+# slices with identical bounds - checked at the one call site, column_weights)
+PARALLEL_PARAMS = {
+    ("vectorizers/transformers/info_weight.py", "column_kl_divergence_exact_prior"): ("count_indices", "count_data"),
+}
+
+
 def _len_forms(a: str) -> Set[str]:
     return {"%s.shape[0]" % a, "len(%s)" % a, "%s.size" % a}
 
@@ -98,6 +105,9 @@ def r10_2(repo: Repo, rule: str = "R10.2") -> RuleResult:
             if not same and base in sd and arr_def is not None and isinstance(sd[base], ast.Subscript) \
                     and isinstance(sd[arr], ast.Subscript) and norm(sd[base].slice) == norm(sd[arr].slice):
                 same = True  # sibling array sliced with the same bounds
+            par = PARALLEL_PARAMS.get((f.file, f.qualname))
+            if not same and par and arr == par[0] and base == par[1]:
+                same = True
             if not same:
                 continue
             checked += 1
